@@ -656,7 +656,114 @@ def check(rep, prog, fn):
     return nsib
 
 
+COUNT_CALLS = ('boost::out_degree', 'boost::in_degree', 'boost::degree', 'boost::num_vertices', 'boost::num_edges')
+_WIDTH = {'unsigned char': 8, 'signed char': 8, 'char': 8, 'unsigned short': 16, 'short': 16, 'unsigned int': 32, 'int': 32,
+          'unsigned long': 64, 'long': 64, 'unsigned long long': 64, 'long long': 64}
+
+
+def _width(prog, t):
+    ty = prog.base_type(t) if t is not None else None
+    c = ((ty or {}).get('canon') or (ty or {}).get('s') or '').replace('const ', '').strip()
+    return _WIDTH.get(c)
+
+
+def check_count_width(rep, prog, fn):
+    """R13h: degrees and vertex counts are kept in a type as wide as the one the graph reports them in: a table of 16-bit residual degrees
+    makes a hub of degree 65536 look isolated (it is discarded in the initial clean-up, every cycle through it survives)"""
+    what = 'degrees / counts read from the graph are stored without narrowing'
+    fns = [fn] + [prog.fn_of_fref(op) for x in fn.walk() if x.k == 'LambdaExpr' for op in x.j.get('lambda_ops', ())]
+    n = 0
+    for f in [f_ for f_ in fns if f_ is not None and f_.body is not None]:
+        for x in f.walk():
+            if x.k != 'ImplicitCastExpr' or x.j.get('ck') != 'IntegralCast' or not x.c:
+                continue
+            src = x.c[0].strip_all()
+            origin = src
+            v = ex.var_of(src)
+            if v is not None and ex.unique_def(f, v) is not None:
+                origin = ex.unique_def(f, v).strip_all()
+            if not (origin.k == 'CallExpr' and origin.callee and origin.callee['g'] in COUNT_CALLS):
+                continue
+            n += 1
+            wt, wf = _width(prog, x.j.get('t')), _width(prog, x.c[0].strip().j.get('t'))
+            if wt is not None and wf is not None and wt < wf:
+                rep.violation('R13h', x, f, what, '`%s` (%d-bit, from %s) is converted to a %d-bit integer at line %d: a vertex of degree 2^%d is taken for an isolated one' % (
+                    src.text(30), wf, origin.callee['name'], wt, x.line, wt), key='R13h|%s|%d' % (fn.g, wt))
+            else:
+                rep.ok('R13h', x, f, what)
+    # element type of the tables the counts are stored in (assignment through operator[] of a vector has no cast node: the narrowing
+    # happens in the assignment to the element reference)
+    for f in [f_ for f_ in fns if f_ is not None and f_.body is not None]:
+        for x in f.walk():
+            if x.k == 'BinaryOperator' and x.op == '=' and len(x.c) == 2:
+                rhs = x.c[1].strip_all()
+                origin = rhs
+                v = ex.var_of(rhs)
+                if v is not None and ex.unique_def(f, v) is not None:
+                    origin = ex.unique_def(f, v).strip_all()
+                if origin.k == 'CallExpr' and origin.callee and origin.callee['g'] in COUNT_CALLS:
+                    n += 1
+                    wt, wf = _width(prog, x.c[0].j.get('t')), _width(prog, origin.j.get('t'))
+                    if wt is not None and wf is not None and wt < wf:
+                        rep.violation('R13h', x, f, what, '`%s` stores the %d-bit result of %s in a %d-bit element: a vertex of degree 2^%d is taken for an isolated one' % (
+                            x.text(40), wf, origin.callee['name'], wt, wt), key='R13h|%s|%d' % (fn.g, wt))
+                    elif wt is not None:
+                        rep.ok('R13h', x, f, what, '%d-bit element' % wt)
+    return n
+
+
+def check_no_vertex_sentinel(rep, prog, fn):
+    """R13i: a default-constructed vertex descriptor is not used as "no vertex": for vecS graphs `Vertex()` is vertex 0, a real vertex
+    (boost::graph_traits<G>::null_vertex() is the sentinel).  Witness: a vertex variable whose only initialisation is the
+    value-initialised descriptor is compared with another vertex on a path on which it has not been assigned."""
+    what = 'a value-initialised vertex descriptor (vertex 0) is not compared with real vertices as a "none yet" marker'
+    fns = [fn] + [prog.fn_of_fref(op) for x in fn.walk() if x.k == 'LambdaExpr' for op in x.j.get('lambda_ops', ())]
+    fns = [f_ for f_ in fns if f_ is not None and f_.body is not None]
+    n = 0
+    for d in fn.walk():
+        if d.k != 'VarDecl' or not d.c:
+            continue
+        ty = prog.type(prog.vars[d.decl_id].get('ty')) or {}
+        if 'ertex' not in (ty.get('s') or ''):
+            continue
+        ini = d.c[0].strip_all()
+        is_default = ini.k == 'CXXScalarValueInitExpr' or (ini.k in ('IntegerLiteral',) and ini.cv == 0) or \
+            (ini.k in ('CXXFunctionalCastExpr', 'CXXTemporaryObjectExpr', 'CXXConstructExpr') and not [c_ for c_ in ini.c if c_.strip_all().cv not in (None, 0) or c_.strip_all().k not in ('IntegerLiteral', 'InitListExpr')] and
+             all(not c_.c or c_.strip_all().cv == 0 for c_ in ini.c))
+        if not is_default:
+            continue
+        v = d.decl_id
+        for f in fns:
+            asg = [a_ for (a_, _r) in ex.assignments_to(f, v) if a_.k != 'VarDecl']
+            for x in f.walk():
+                if x.k == 'BinaryOperator' and x.op in ('==', '!=') and v in (ex.var_of(x.c[0]), ex.var_of(x.c[1])):
+                    other = x.c[1] if ex.var_of(x.c[0]) == v else x.c[0]
+                    ot = prog.type(other.strip_all().j.get('t')) or {}
+                    n += 1
+                    if any(f.cfg is not None and f.cfg.dominates(a_, x) for a_ in asg):
+                        rep.ok('R13i', x, f, what, 'assigned before the comparison')
+                        continue
+                    if f is fn and any(fn.cfg.dominates(a_, x) for (a_, _r) in ex.assignments_to(fn, v) if a_.k != 'VarDecl'):
+                        rep.ok('R13i', x, f, what, 'assigned before the comparison')
+                        continue
+                    # a separate flag in the same condition may say whether the variable holds a vertex yet
+                    cond = x
+                    while cond.parent is not None and cond.parent.k in ('BinaryOperator', 'ParenExpr', 'UnaryOperator', 'ImplicitCastExpr') and \
+                            (cond.parent.k != 'BinaryOperator' or cond.parent.op in ('&&', '||')):
+                        cond = cond.parent
+                    flags = [y for y in cond.walk() if y.k == 'DeclRefExpr' and y.decl_id != v and ((prog.type(y.j.get('t')) or {}).get('canon') or '') == 'bool']
+                    if flags:
+                        rep.undecided('R13i', x, f, what, 'the comparison is combined with the flag `%s`' % flags[0].text(20))
+                        continue
+                    rep.violation('R13i', x, f, what, '`%s` is initialised with the value-initialised descriptor (line %d) and compared with `%s` before anything is assigned to it: '
+                                  'for a vecS graph that value is vertex 0, so vertex 0 is treated as "already seen"' % (
+                                      prog.vars[v]['name'], d.line, other.text(20)), key='R13i|%s|%s' % (fn.g, prog.vars[v]['name']))
+    return n
+
+
 def run(rep, tier):
+    rep.rule('R13h', 'degrees and counts are stored as wide as the graph reports them', floor=1)
+    rep.rule('R13i', 'no value-initialised vertex descriptor serves as a "no vertex" marker', floor=0)
     rep.rule('R05f', 'the output iterator is not reused after being passed by value to a helper that writes through it', floor=0)
     rep.rule('R13g', 'the vertex read from the discard queue / heap is the one removed from it', floor=3)
     rep.rule('R13e', 'the emission loop does not stop while three or more heap entries remain', floor=1)
@@ -679,6 +786,8 @@ def run(rep, tier):
                 continue        # judged through the overload it forwards to
             n += 1
             check(rep, prog, fn)
+            check_count_width(rep, prog, fn)
+            check_no_vertex_sentinel(rep, prog, fn)
         c07.r07g(rep, prog, only_files=('fvs.hpp',))
     if n == 0:
         rep.analysis_broken('parmcb::greedy_fvs is not instantiated (anchor vanished)')
